@@ -344,8 +344,13 @@ Value parallel_reduce(const Range &range, const Value &identity, const Func &bod
     //     cells [p,j) in one invocation  -- this includes a body that keeps accumulating after a join, which the installed
     //     oneTBB does produce (observed by the conformance recorder: B(52,53,J(..)));
     //   - the order-preserving join of a value for [i,m) with a value for [m,j).
+    // the sequential execution is computed FIRST, before any other body invocation can have touched state shared between
+    // invocations; it is the default outcome and the yardstick of the purity probe
+    ++S.reduce_body_runs;
+    Value sequential = body(range, identity);
     std::vector<std::vector<std::vector<Value>>> E(C + 1, std::vector<std::vector<Value>>(C + 1));
     for (std::size_t i = 0; i <= C; ++i) E[i][i].push_back(identity);
+    E[0][C].push_back(sequential);
     for (std::size_t len = 1; len <= C; ++len) for (std::size_t i = 0; i + len <= C; ++i) {
         std::size_t j = i + len;
         // default first: one invocation covering everything from the identity (this is what a one-worker run does)
@@ -355,8 +360,10 @@ Value parallel_reduce(const Range &range, const Value &identity, const Func &bod
         }
         for (std::size_t m = i + 1; m < j; ++m) for (const Value &x : E[i][m]) for (const Value &y : E[m][j]) { ++S.reduce_joins; add_distinct(E[i][j], join(x, y)); }
     }
-    // purity probe: the sequential result recomputed at the end of the call must be identical
-    { ++S.reduce_body_runs; Value again = body(range, identity); if (!(again == E[0][C][0])) ++S.impure_bodies; }
+    // purity probe: the same invocation repeated in the middle of the enumeration (it is the first one of E[0][C]'s loop, p = 0)
+    // and again at the very end must return what it returned at the start; otherwise bodies share state and the
+    // enumeration above is not a set of real executions (the harness then discards it and relies on direct execution)
+    { ++S.reduce_body_runs; Value again = body(range, identity); if (!(again == sequential)) ++S.impure_bodies; }
     std::vector<Value> &out = E[0][C];
     if (out.size() > S.reduce_max_outcomes) S.reduce_max_outcomes = out.size();
     if (out.size() > 1) ++S.reduce_multi_outcome_calls;
